@@ -56,7 +56,8 @@ inline void run_stress(Engine& E, Rng& r) {
     R.stat("S_histories"); R.stat("S_ops", (long long)out.ops.size()); R.stat("S_concurrent_ops", conc); R.stat("S_helper_ops", out.helper_ops);
     R.stat("S_pops", as.pops); R.stat("S_try_pop_empty", as.empties); R.stat("S_try_push_full", as.fulls);
     if (conc * 20 >= (long)out.ops.size()) { R.nontrivial++; R.signature(mix(history_signature(out.ops), 'S')); }
-    if (!out.fail_key.empty()) {
+    R.stat("try_push_while_pop_blocked", out.try_push_while_pop_blocked);
+    if (!out.fail_key.empty() && !out.reported) {
         Json j; j.obj(); j.kv("seed", (unsigned long long)p.seed); j.kv("threads", p.nthreads); j.kv("ops_per_thread", per); j.kv("queue", p.bounded ? "concurrent_bounded_queue" : "concurrent_queue"); j.kv("capacity", cap); j.kv("elem_bytes", kSizes[p.size_class]); j.end_obj();
         R.violation(cls_key('S', out.fail_key), out.fail_detail + "\n" + rings_dump(6), j.s);
     }
